@@ -82,7 +82,7 @@ def run(ctx):
                             want[x]["links"].append((lt, (k, x)))
                         if x not in want_members:
                             want_members.append(x)
-                why = compare(out, V, want, want_members, h) or readback(h, V, want, lt)
+                why = compare(out, V, want, want_members, h) or readback(h, V, want, lt) or prior_universe(W, verts)
                 res.ob(why is None, sig=("dict", keys, rows, lt), sample={"builder": "load_adj_dict", "adjacency": {k: list(r) for k, r in zip(keys, rows)}, "linktype": lt})
                 if why:
                     feats = ("rows-are-iterators," if one_shot else "") + f"empty-row={any(len(r) == 0 for r in rows)},self-entry={any(k in r for k, r in zip(keys, rows))},repeated-entry={any(len(set(r)) < len(r) for r in rows)},value-not-a-key={any('e' in r for r in rows)}"
@@ -120,7 +120,8 @@ def run(ctx):
                             want[a]["links"].append((lt, (a, b)))
                             if a != b:
                                 want[b]["links"].append((lt, (a, b)))
-                why = compare(out, V, want, list(names), h)
+                why = compare(out, V, want, list(names), h) or readback(h, V, want, lt)
+                why = why or prior_universe(W, names + ["e"])
                 res.ob(why is None, sig=("matrix", size, cell, lt), sample={"builder": "load_adj_matrix", "cells": [list(cell[i * size:(i + 1) * size]) for i in range(size)], "linktype": lt})
                 if why:
                     res.violation("BUILD-MATRIX", MAT_FN, f"size={size},diagonal={any(cell[i * size + i] for i in range(size))}", f"load_adj_matrix(size {size}, truthy cells {cell}, {lt}): {why}", replay=replay_mat(size, cell, lt))
@@ -175,6 +176,7 @@ def readback(h, V, want, lt):
     """Reading the result back with neighbors() reproduces the input adjacency (its symmetric closure for an undirected type)."""
     from rules import c04
     nb = h.fn(c04.FN)
+    fl = h.fn("edgegraph.traversal.helpers.find_links")
     C = c04.consts(h)
     for n, v in V.items():
         exp = []
@@ -187,7 +189,21 @@ def readback(h, V, want, lt):
         got = [x.name for x in out.value.items] if out.kind == "return" else repr(out)
         if got != exp:
             return f"reading back neighbors({n}) gives {got}, the input adjacency (plus prior links) gives {exp}"
+        for m_, w in V.items():
+            fo = h.call(fl, v, w, True, C["NEIGHBOR"])
+            cnt = len(fo.value.items) if fo.kind == "return" and hasattr(fo.value, "items") else repr(fo)
+            if cnt != exp.count(m_):
+                return f"find_links({n}, {m_}) finds {cnt} link(s), the input adjacency (plus prior links) lists {m_} {exp.count(m_)} time(s) for {n}"
     return None
+
+
+def prior_universe(W, names_):
+    """pre-existing universes stay in place: W = [first, last] as built by world()"""
+    if W is None:
+        return None
+    got = [x.name for x in W.fields["_vertices"].items]
+    want = [names_[0], names_[-1]]
+    return None if got == want else f"the pre-existing universe W now lists {got}, it listed {want}"
 
 
 def compare(out, V, want, want_members, h):
